@@ -30,10 +30,13 @@ SAFE_PAYLOADS = [b'', b'x', b'line of text', b'-- a/file', b'++ b/file',
 
 
 @hs.composite
-def file_desc(draw):
+def file_desc(draw, nested=False):
     """One file: how its diff is made + pre-existing metadata."""
     kind = draw(hs.sampled_from(['text', 'text', 'text', 'binary', 'empty',
                                  'absent', 'damaged']))
+
+    if nested and kind == 'absent':
+        kind = 'empty'
     f = {'kind': kind}
     r = draw(hs.integers(0, 3))
 
@@ -66,6 +69,9 @@ def file_desc(draw):
         f['crlf'] = draw(hs.booleans())
         f['declare_le'] = draw(hs.booleans())
         f['encoding'] = draw(hs.sampled_from(DIFF_ENCS))
+        f['misdeclare'] = (f['encoding'] in ('utf-16', 'utf-16-le',
+                                             'utf-32-be', 'utf-32') and
+                           kind == 'text' and draw(hs.integers(0, 3)) == 0)
         f['final_newline'] = draw(hs.integers(0, 3)) != 0
         f['declare_type'] = draw(hs.booleans())
         # an explicit byte order mark in front of a codec that does not
@@ -76,6 +82,20 @@ def file_desc(draw):
             # a long first line (before the first hunk)
             n = draw(hs.sampled_from([1022, 1023, 1024, 4095, 4096, 8192]))
             d['pre'] = [b'L' * n] + d['pre']
+
+    if not nested:
+        f['container_encoding'] = draw(hs.sampled_from(
+            [None, None, 'utf-16', 'utf-32-be', 'ascii', 'latin-1']))
+
+        if draw(hs.integers(0, 2)) == 0:
+            # the file is changed after the first generate_stats() and the
+            # statistics are generated again
+            f['then'] = draw(file_desc(nested=True))
+
+            if f.get('misdeclare'):
+                # the usual history: a wrongly declared encoding corrected
+                f['then'] = dict(f, misdeclare=False)
+                f['then'].pop('then', None)
 
     return f
 
@@ -118,6 +138,9 @@ def build_tree(case):
         if 'stats' in c:
             change.meta = {'stats': copy.deepcopy(c['stats']), 'id': 'abc'}
 
+        if c.get('encoding'):
+            change.encoding = c['encoding']
+
         fexp = []
 
         for f in c['files']:
@@ -127,43 +150,58 @@ def build_tree(case):
                 meta['stats'] = copy.deepcopy(f['stats'])
 
             fs = change.add_file(meta=meta)
-            analysed = None
 
-            if f['kind'] in ('text', 'binary', 'damaged'):
-                data, ins, dels = diff_bytes(f)
-                lines, _ = hunks.diff_lines(f['diff'])
+            if f.get('container_encoding'):
+                fs.encoding = f['container_encoding']
 
-                if f['kind'] == 'damaged':
-                    data, ok = damage_bytes(f)
-
-                    if not ok:
-                        f = dict(f, kind='text')
-                        data, ins, dels = diff_bytes(f)
-
-                if data:
-                    fs.diff = data
-
-                if f['encoding'] is not None:
-                    fs.diff_encoding = f['encoding']
-
-                if f['declare_le']:
-                    fs.diff_line_endings = 'dos' if f['crlf'] else 'unix'
-
-                if f['kind'] == 'binary':
-                    fs.diff_type = 'binary'
-                elif f['declare_type']:
-                    fs.diff_type = 'text'
-
-                if f['kind'] == 'text' and data:
-                    analysed = (ins, dels)
-            elif f['kind'] == 'empty':
-                fs.diff = b''
-
+            analysed = apply_diff(fs, f)
             fexp.append(analysed)
 
         expect.append(fexp)
 
     return diffx, expect
+
+
+def apply_diff(fs, f):
+    """Give the file section the diff a description stands for; returns
+    (insertions, deletions) if it is to be analysed, else None."""
+    fs.diff_section.options.clear()
+    analysed = None
+
+    if f['kind'] in ('text', 'binary', 'damaged'):
+        data, ins, dels = diff_bytes(f)
+
+        if f['kind'] == 'damaged':
+            data, ok = damage_bytes(f)
+
+            if not ok:
+                f = dict(f, kind='text')
+                data, ins, dels = diff_bytes(f)
+
+        fs.diff = data
+
+        if f['encoding'] is not None:
+            fs.diff_encoding = 'latin-1' if f.get('misdeclare') \
+                else f['encoding']
+
+        if f['declare_le']:
+            fs.diff_line_endings = 'dos' if f['crlf'] else 'unix'
+
+        if f['kind'] == 'binary':
+            fs.diff_type = 'binary'
+        elif f['declare_type']:
+            fs.diff_type = 'text'
+
+        if f['kind'] == 'text' and data:
+            # a wrongly declared single-byte encoding over UTF-16/32 bytes:
+            # no line can start with "@@", so there are no hunks at all
+            analysed = (0, 0) if f.get('misdeclare') else (ins, dels)
+    elif f['kind'] == 'empty':
+        fs.diff = b''
+    elif fs.diff_section.content is not None:
+        fs.diff = b''
+
+    return analysed
 
 
 def damage_bytes(f):
@@ -200,6 +238,118 @@ def damage_bytes(f):
     return render_lines(lines, f, force_final=True), True
 
 
+def initial_metas(case):
+    """Expected metadata before any statistics were generated."""
+    main = {}
+
+    if 'main_stats' in case:
+        main = {'stats': copy.deepcopy(case['main_stats']), 'top': 1}
+
+    changes = []
+
+    for c in case['changes']:
+        cm = {}
+
+        if 'stats' in c:
+            cm = {'stats': copy.deepcopy(c['stats']), 'id': 'abc'}
+
+        files = []
+
+        for f in c['files']:
+            fm = copy.deepcopy(f['other_meta'])
+
+            if 'stats' in f:
+                fm['stats'] = copy.deepcopy(f['stats'])
+
+            files.append(fm)
+
+        changes.append((cm, files))
+
+    return main, changes
+
+
+def model_generate(metas, expect):
+    """The property's arithmetic: new expected metadata after one
+    generate_stats() given which files are analysed with which counts."""
+    main, changes = copy.deepcopy(metas)
+    total = {'changes': len(changes), 'files': 0, 'insertions': 0,
+             'deletions': 0, 'lines changed': 0}
+
+    for ci, (cm, files) in enumerate(changes):
+        csum = {'files': len(files), 'insertions': 0, 'deletions': 0,
+                'lines changed': 0}
+
+        for fi, fm in enumerate(files):
+            a = expect[ci][fi]
+
+            if a is not None:
+                fm.setdefault('stats', {}).update(
+                    {'insertions': a[0], 'deletions': a[1],
+                     'lines changed': a[0] + a[1]})
+
+            reported = fm.get('stats', {})
+            csum['insertions'] += reported.get('insertions', 0)
+            csum['deletions'] += reported.get('deletions', 0)
+            csum['lines changed'] += reported.get('lines changed', 0)
+
+        cm.setdefault('stats', {}).update(csum)
+
+        for k in ('files', 'insertions', 'deletions', 'lines changed'):
+            total[k] += csum[k]
+
+    main.setdefault('stats', {}).update(total)
+    return main, changes
+
+
+def compare_metas(diffx, metas, expect, case, st, phase):
+    main, changes = metas
+
+    for ci, ((cm, files), change) in enumerate(zip(changes, diffx.changes)):
+        for fi, (fm, fs) in enumerate(zip(files, change.files)):
+            if not trees.snap_eq(fs.meta, fm):
+                a = expect[ci][fi]
+                f = case['changes'][ci]['files'][fi]
+
+                if phase == 2 and 'then' in f:
+                    f = f['then']
+
+                kind = ('wrong-file-stats' if a is not None else
+                        'unanalysed-file-meta-changed')
+                st.violation(kind + ('' if phase == 1 else '-after-edit'),
+                             'change %d file %d (%s, encoding %s%s, %s): '
+                             'meta %r, expected %r'
+                             % (ci, fi, f['kind'], f.get('encoding'),
+                                ' declared as latin-1'
+                                if f.get('misdeclare') else '',
+                                'crlf' if f.get('crlf') else 'lf',
+                                fs.meta, fm), case)
+                return False
+
+        if not trees.snap_eq(change.meta, cm):
+            st.violation('wrong-change-stats' +
+                         ('' if phase == 1 else '-after-edit'),
+                         'change %d: %r, expected %r' % (ci, change.meta, cm),
+                         case)
+            return False
+
+    if not trees.snap_eq(diffx.meta, main):
+        st.violation('wrong-total-stats' + ('' if phase == 1
+                                            else '-after-edit'),
+                     '%r, expected %r' % (diffx.meta, main), case)
+        return False
+
+    return True
+
+
+def _strip_meta(s):
+    name, sid, opts, content, children = s
+
+    if name == 'DiffXMetaSection':
+        content = None
+
+    return [name, sid, opts, content, [_strip_meta(c) for c in children]]
+
+
 def run_case(case, st):
     ns = sut.load()
     diffx, expect = build_tree(case)
@@ -210,11 +360,13 @@ def run_case(case, st):
                                           'cp037', 'utf-32')
                     for c in case['changes'] for f in c['files']
                     if f['kind'] == 'text')
+    edited = any('then' in f for c in case['changes'] for f in c['files'])
     st.case(case, nontrivial=analysed >= 2 or (analysed >= 1 and multibyte),
             classes=['changes-%d' % len(case['changes']),
                      'files-%d' % min(nfiles, 8),
                      'analysed-%d' % min(analysed, 6)] +
-            (['multibyte-or-ebcdic-diff'] if multibyte else []))
+            (['multibyte-or-ebcdic-diff'] if multibyte else []) +
+            (['edited-and-regenerated'] if edited else []))
 
     try:
         diffx.generate_stats()
@@ -225,85 +377,18 @@ def run_case(case, st):
                      repr(e), case)
         return
 
-    # ---- expectations --------------------------------------------------
-    total = {'changes': len(case['changes']), 'files': 0, 'insertions': 0,
-             'deletions': 0, 'lines changed': 0}
+    metas = model_generate(initial_metas(case), expect)
 
-    for ci, (c, change) in enumerate(zip(case['changes'], diffx.changes)):
-        csum = {'files': len(c['files']), 'insertions': 0, 'deletions': 0,
-                'lines changed': 0}
-
-        for fi, (f, fs) in enumerate(zip(c['files'], change.files)):
-            want_meta = copy.deepcopy(f['other_meta'])
-
-            if 'stats' in f:
-                want_meta['stats'] = copy.deepcopy(f['stats'])
-
-            a = expect[ci][fi]
-
-            if a is not None:
-                stats = want_meta.setdefault('stats', {})
-                stats.update({'insertions': a[0], 'deletions': a[1],
-                              'lines changed': a[0] + a[1]})
-
-            if not trees.snap_eq(fs.meta, want_meta):
-                kind = ('wrong-file-stats' if a is not None else
-                        'unanalysed-file-meta-changed')
-                st.violation(kind,
-                             'change %d file %d (%s, encoding %s, %s): meta '
-                             '%r, expected %r'
-                             % (ci, fi, f['kind'], f.get('encoding'),
-                                'crlf' if f.get('crlf') else 'lf',
-                                fs.meta, want_meta), case)
-                return
-
-            reported = want_meta.get('stats', {})
-            csum['insertions'] += reported.get('insertions', 0)
-            csum['deletions'] += reported.get('deletions', 0)
-            csum['lines changed'] += reported.get('lines changed', 0)
-
-        want_cmeta = {}
-
-        if 'stats' in c:
-            want_cmeta = {'stats': copy.deepcopy(c['stats']), 'id': 'abc'}
-
-        want_cmeta.setdefault('stats', {}).update(csum)
-
-        if not trees.snap_eq(change.meta, want_cmeta):
-            st.violation('wrong-change-stats',
-                         'change %d: %r, expected %r' % (ci, change.meta,
-                                                         want_cmeta), case)
-            return
-
-        for k in ('files', 'insertions', 'deletions', 'lines changed'):
-            total[k] += csum[k]
-
-    want_main = {}
-
-    if 'main_stats' in case:
-        want_main = {'stats': copy.deepcopy(case['main_stats']), 'top': 1}
-
-    want_main.setdefault('stats', {}).update(total)
-
-    if not trees.snap_eq(diffx.meta, want_main):
-        st.violation('wrong-total-stats',
-                     '%r, expected %r' % (diffx.meta, want_main), case)
+    if not compare_metas(diffx, metas, expect, case, st, 1):
         return
 
     # ---- non-destructive: nothing but the meta contents changed ---------
     after = trees.snapshot(diffx)
 
-    def strip(s):
-        name, sid, opts, content, children = s
-
-        if name == 'DiffXMetaSection':
-            content = None
-
-        return [name, sid, opts, content, [strip(c) for c in children]]
-
-    if not trees.snap_eq(strip(before), strip(after)):
+    if not trees.snap_eq(_strip_meta(before), _strip_meta(after)):
         st.violation('generate_stats-changed-something-else',
-                     trees.snap_diff(strip(before), strip(after)), case)
+                     trees.snap_diff(_strip_meta(before), _strip_meta(after)),
+                     case)
         return
 
     # ---- idempotent -------------------------------------------------------
@@ -316,6 +401,33 @@ def run_case(case, st):
     if not trees.snap_eq(trees.snapshot(diffx), after):
         st.violation('not-idempotent',
                      trees.snap_diff(after, trees.snapshot(diffx)), case)
+        return
+
+    # ---- history: edit some diffs, generate again ---------------------------
+    if not edited:
+        return
+
+    expect2 = []
+
+    for c, change in zip(case['changes'], diffx.changes):
+        row = []
+
+        for f, fs in zip(c['files'], change.files):
+            if 'then' in f:
+                row.append(apply_diff(fs, f['then']))
+            else:
+                row.append(apply_diff(fs, f))
+
+        expect2.append(row)
+
+    try:
+        diffx.generate_stats()
+    except Exception as e:
+        st.violation('generate_stats-raised-after-edit', repr(e), case)
+        return
+
+    metas2 = model_generate(metas, expect2)
+    compare_metas(diffx, metas2, expect2, case, st, 2)
 
 
 @hs.composite
@@ -330,6 +442,9 @@ def cases(draw):
 
         if draw(hs.integers(0, 2)) == 0:
             c['stats'] = {'files': 42, 'vendor': {'x': 1}}
+
+        c['encoding'] = draw(hs.sampled_from([None, None, 'utf-16',
+                                              'utf-32', 'ascii']))
 
         case['changes'].append(c)
 
@@ -350,7 +465,11 @@ def checks():
                  'stats dictionaries with custom keys at all three levels; '
                  'after generate_stats(): exact file figures, additive '
                  'change and total figures, everything else unchanged, '
-                 'second call changes nothing; non-trivial = >= 2 analysed '
+                 'second call changes nothing; a third of the files are then '
+                 'given another diff (or the correct encoding after a wrong '
+                 'one) and the statistics generated again must follow the '
+                 'same arithmetic from the current state; changes and files '
+                 'may declare their own (irrelevant) encodings; non-trivial = >= 2 analysed '
                  'files, or an analysed file in a multi-byte/EBCDIC '
                  'encoding'),
     ]
